@@ -378,7 +378,7 @@ int fiber_wait_for_event(int fd, uint32_t events) {
   return this_fiber->scratch ? FIBER_ERROR : FIBER_SUCCESS;
 }
 
-int fiber_sleep(uint32_t seconds, uint32_t useconds) {
+int fiber_sleep(uint64_t seconds, uint32_t useconds) {
   if (event_fd < 0) {
     fiber_do_real_sleep(seconds, useconds);
     return FIBER_SUCCESS;
